@@ -212,6 +212,13 @@ def _apportion(ctx: Ctx):
     return r
 
 
+def _segment_positive(ctx: Ctx):
+    """rendering succeeds: no zero-column text segment reaches LayoutSegment (C03.15)"""
+    from . import c03
+
+    return c03.rule_segment_positive(ctx, "C01.16")
+
+
 def _scrollbar_parts(ctx: Ctx):
     """the three parts of the scroll bar must add up to the view height, or the box widget returns more rows than asked"""
     from . import c20
@@ -284,6 +291,7 @@ def run(ctx: Ctx):
         loopfresh.run_loopfresh(p, "C01.13", "C01", floor=6),
         c03_segment_width(ctx),
         _scrollbar_parts(ctx),
+        _segment_positive(ctx),
     ]
 
 
